@@ -71,7 +71,7 @@ Section Defs.
       Base b E L true m /\ NoDup L /\ (exists done, L = done ++ rest) /\
       (forall g, g ∈ L -> Member m g) /\ (any = false -> ClosedL L E m)
     | KDropList L rest old_d =>
-      Base b E L true m /\ st_dropping m = true /\ NoDup L /\ (exists done, L = done ++ rest) /\
+      Base b E L true m /\ NoDup L /\ (exists done, L = done ++ rest) /\
       (forall g, g ∈ L -> cnt_id g E = 0%nat /\ DMember rest m g) /\
       DeadClosed L m /\ TargetsIn L rest m
     | _ => True
